@@ -16,6 +16,7 @@ func init() {
 			ID: "C04",
 			Explanation: "The invoke barrier's single-goroutine obligations are decided on every path of doInvoke and its closures: barriers are re-armed first (and the re-arm reaches every gate), the agents-ready count is exactly len(INVOKE-subscribed internal) + len(INVOKE-subscribed external), obtained with the INVOKE event constant, the renderer built from this invocation's request is installed before anybody is released, exactly the two subscriber slices whose lengths were summed are released (once per element), then the runtime, and the invocation is reported complete only after AwaitRuntimeResponse, AwaitRuntimeReady and (when extensions are active) AwaitAgentsReady returned nil; " +
 				"init/invoke/reset/shutdown handling is serialised by the handler mutex; the INVOKE event's request id, ARN, deadline source and trace id come from the same Invoke record as the runtime's headers; the invoke gates are walked through only by the transitions that mean 'response sent', 'runtime asked for next' and 'extension asked for next'. " +
+				"Added after the blind rounds: the caller's tracing headers are handed on verbatim; the latch rules of C11; the in-flight reservation is released only by its own invocation; no connection deadlines on the long polls. " +
 				"NOT decided: event ordering as observed by the processes; exact deadlines; interleavings (reduced to the barrier primitive, C11).",
 			RuleText:    "one obligation per adjacent pair of orchestration steps, per nil edge, per wiring edge, per release loop, per gate-arrival call site",
 			Assumptions: append([]string{"the tracer wrappers call the function they are given exactly once (checked in C03 for the emulator's tracer)"}, trusted...),
@@ -226,9 +227,9 @@ func runC04(c *report.Ctx) {
 	checkHeaderWiring(c)
 	c.Clause("4 completion requires response and next")
 	want := map[string][]string{
-		invokeFlowI + "RuntimeResponse": {"L/core.RuntimeInvocationErrorResponseState.ResponseSent", "L/core.RuntimeInvocationResponseState.ResponseSent"},
-		invokeFlowI + "RuntimeReady":    {"L/core.RuntimeResponseSentState.Ready"},
-		invokeFlowI + "AgentReady":      {"L/core.ExternalAgentRunningState.Ready", "L/core.InternalAgentRunningState.Ready"},
+		invokeFlowI + "RuntimeResponse":      {"L/core.RuntimeInvocationErrorResponseState.ResponseSent", "L/core.RuntimeInvocationResponseState.ResponseSent"},
+		invokeFlowI + "RuntimeReady":         {"L/core.RuntimeResponseSentState.Ready"},
+		invokeFlowI + "AgentReady":           {"L/core.ExternalAgentRunningState.Ready", "L/core.InternalAgentRunningState.Ready"},
 		invokeFlowI + "AwaitRuntimeResponse": {"L/rapid.doInvoke$1$2"},
 		invokeFlowI + "AwaitRuntimeReady":    {"L/rapid.doInvoke$1$3"},
 		invokeFlowI + "AwaitAgentsReady":     {"L/rapid.doInvoke$1"},
